@@ -95,7 +95,7 @@ impl Pipe {
     pub fn curved_solid(od: f64, degrees: f64, radius: f64, fn_: u64) -> Scad {
         assert!(degrees > 0.0 && degrees <= 360.0);
 
-        translate!([od / 2.0 - radius, 0.0, 0.0],
+        translate!([-od / 2.0 - radius, 0.0, 0.0],
             rotate!([90.0, 0.0, 0.0],
                 rotate_extrude!(angle=degrees, convexity=4, fn=fn_,
                     translate!([od /2.0 + radius, 0.0, 0.0],
